@@ -104,6 +104,14 @@ theorem getrange_substr_never_panic (c : Ctx) (cmd : List Bytes) (s : State) (w 
     ((handleSubStr c cmd).run c s).2 ≠ .panic w :=
   handleSubStr_no_panic c cmd s w
 
+/-- **TYPE cannot take the server down** (repaired in /repo by a `fix:` commit; before it a key whose value reads
+    as nil — expired but still stored, or an entry holding only a deadline — made `reflect.TypeOf(nil).Kind()`
+    panic: the former class `type-panic`). For every argument vector, context and state the run does not end in a
+    panic. -/
+theorem type_never_panics (c : Ctx) (cmd : List Bytes) (s : State) (w : String) :
+    ((handleType c cmd).run c s).2 ≠ .panic w :=
+  handleType_no_panic c cmd s w
+
 /-- … and the slice the handler takes is within the value for every start and end -/
 theorem getrange_slice_within_value (value : Bytes) (start end_ : Int) :
     0 ≤ (subStrIdx value.length start end_).1 ∧ (subStrIdx value.length start end_).1 ≤ value.length ∧
